@@ -247,7 +247,10 @@ def run_ks(prop, cfg, tier, seed, log, replay_ids=None):
         return res
     vpath = open(os.path.join(ROOT, "harness", hdir, "VPATH")).read().strip()
     bindir = os.path.join(BUILD, "bin"); os.makedirs(bindir, exist_ok=True)
-    hbin = os.path.join(bindir, hdir)
+    # per-process names: two runs of one property (e.g. a scratch-worktree run next to a normal one)
+    # must not replace each other's binaries between build and run
+    hbin = os.path.join(bindir, "%s.%d" % (hdir, os.getpid()))
+    tmp_bins = [hbin]
     env_extra = {}
     with Lock("gobuild-" + hdir):
         if os.path.exists(hbin): os.remove(hbin)
@@ -257,7 +260,8 @@ def run_ks(prop, cfg, tier, seed, log, replay_ids=None):
             res["harness_error"] = "harness does not build against /repo:\n" + r.stdout[-3000:]
             return res
         for xb in cfg.get("extra_builds", []):
-            out = os.path.join(bindir, xb["out"])
+            out = os.path.join(bindir, "%s.%d" % (xb["out"], os.getpid()))
+            tmp_bins.append(out)
             if os.path.exists(out): os.remove(out)
             r = go_build(hdir, xb["pkg"], out, xb.get("flags", []))
             if r.returncode != 0:
@@ -267,7 +271,8 @@ def run_ks(prop, cfg, tier, seed, log, replay_ids=None):
             env_extra[xb["env"]] = out
     driver = os.path.join(LEAN, ".lake", "build", "bin", "driver_" + prop.lower())
     shards = cfg.get("shards", {}).get(tier, 1)
-    rundir = os.path.join(BUILD, "run", prop); os.makedirs(rundir, exist_ok=True)
+    final_rundir = os.path.join(BUILD, "run", prop)
+    rundir = final_rundir + ".%d" % os.getpid(); os.makedirs(rundir, exist_ok=True)   # private while running
     timeout = cfg.get("timeout", {}).get(tier, 600 if tier == "quick" else 3600)
     procs = []
     for s in range(shards):
@@ -298,6 +303,9 @@ def run_ks(prop, cfg, tier, seed, log, replay_ids=None):
         if p.returncode not in (0, None) and not res["harness_error"]:
             res["ok"] = False
             res["harness_error"] = "harness exited %s: %s" % (p.returncode, tail_of(goe.name))
+    for b in tmp_bins:
+        try: os.remove(b)
+        except OSError: pass
     died = []
     if res["harness_error"]:
         # Keep what the harness printed before it died: the last case it started is the best
@@ -386,6 +394,12 @@ def run_ks(prop, cfg, tier, seed, log, replay_ids=None):
         if a != b:
             res["s_hits"].append({"id": cid, "case": cases[cid][0], "impl": a, "expected": b,
                                   "what": "spec", "kf": sorted(kf), "k_agrees": cid not in kbad})
+    # publish the outputs of this run as build/run/Cxx (what the notes refer to); best effort
+    try:
+        shutil.rmtree(final_rundir, ignore_errors=True)
+        os.rename(rundir, final_rundir)
+    except OSError:
+        pass
     return res
 
 # ---------------------------------------------------------------- verdict
